@@ -90,12 +90,15 @@ def erfiDirect (exp : Rat → Rat) (twoOverSqrtPi : Rat) (x : Rat) : Rat :=
 
 inductive InvErfCase where
   | ten      -- |p − 1| < 1e-16: warning, returns 10
+  | minusTen -- |p + 1| < 1e-16: warning, returns −10 (e9e1286: the window is symmetric)
   | diag     -- |p| ≥ 1: diagnostic
   | root     -- Find_Root(erf − p, −10, 10, 1e-4)
   deriving DecidableEq, Repr
 
 def invErfCase (p : Rat) : InvErfCase :=
-  if rabs (p - 1) < 1 / 10 ^ 16 then .ten else if rabs p ≥ 1 then .diag else .root
+  if rabs (p - 1) < 1 / 10 ^ 16 then .ten
+  else if rabs (p + 1) < 1 / 10 ^ 16 then .minusTen
+  else if rabs p ≥ 1 then .diag else .root
 
 /-! ## §2.3 coefficient tables of the vector spherical harmonics -/
 
